@@ -156,6 +156,14 @@ func checkScan(fn string, buf string, pos int) string {
 	if fn == "newTkz" || fn == "tkzNext" {
 		return checkColumns(buf)
 	}
+	if fn == "ParseSInterP" {
+		return checkSInterP(buf)
+	}
+	if fn == "scanRawStringLiteralToken" || fn == "scanStringLiteralToken" {
+		if m := checkLiteralToken(fn, buf, pos); m != "" {
+			return m
+		}
+	}
 	o := runScanner(fn, buf, pos)
 	if o.hung {
 		return fmt.Sprintf("C16 termination: %s(%q, %d) did not return within 2s (hang)", fn, buf, pos)
@@ -243,4 +251,111 @@ func TestVerifReplay(t *testing.T) {
 		}
 	}
 	fmt.Printf("REPLAY-NOT-REPRODUCED tried=%d\n", tried)
+}
+
+// refSInterP: the documented translation of an interpolated-string body (C11): \\{ and \\} -> the brace,
+// other escapes passed through, {name} -> %s + variable, % -> %%, every other byte itself.
+func refSInterP(buf string) (format string, vars []string, ok bool) {
+	i := 0
+	for i < len(buf) {
+		c := buf[i]
+		switch {
+		case c == '\\':
+			if i+1 >= len(buf) {
+				return "", nil, false
+			}
+			c2 := buf[i+1]
+			if c2 == '{' || c2 == '}' {
+				format += string(c2)
+			} else {
+				format += string(c) + string(c2)
+			}
+			i += 2
+		case c == '{':
+			j := i + 1
+			for j < len(buf) && buf[j] != '}' {
+				j++
+			}
+			if j >= len(buf) {
+				return "", nil, false
+			}
+			vars = append(vars, buf[i+1:j])
+			format += "%s"
+			i = j + 1
+		case c == '%':
+			format += "%%"
+			i++
+		default:
+			format += string(c)
+			i++
+		}
+	}
+	return format, vars, true
+}
+
+func checkSInterP(buf string) (msg string) {
+	wf, wv, wok := refSInterP(buf)
+	defer func() {
+		if r := recover(); r != nil {
+			if wok {
+				msg = fmt.Sprintf("ParseSInterP(%q) panics (%v) although the body is well formed", buf, r)
+			}
+		}
+	}()
+	got := ParseSInterP(buf)
+	if !wok {
+		return ""
+	}
+	if got.E0 != wf || fmt.Sprint(got.E1) != fmt.Sprint(wv) {
+		return fmt.Sprintf("ParseSInterP(%q) = (%q, %q), the documented translation is (%q, %q) (C11: \\{ \\} are literal braces, %% is preserved, {name} is a hole)", buf, got.E0, got.E1, wf, wv)
+	}
+	return ""
+}
+
+// checkLiteralToken: value of a string / raw-string token against the statement.
+func checkLiteralToken(fn string, buf string, pos int) (msg string) {
+	defer func() { recover() }()
+	if pos < 0 || pos >= len(buf) {
+		return ""
+	}
+	if fn == "scanRawStringLiteralToken" {
+		if buf[pos] != '`' {
+			return ""
+		}
+		tk := scanRawStringLiteralToken(buf, pos)
+		body := buf[pos+1 : pos+tk.len-1]
+		want := ""
+		for i := 0; i < len(body); i++ {
+			switch body[i] {
+			case '\\':
+				want += "\\\\"
+			case '"':
+				want += "\\\""
+			case '\n':
+				want += "\\n"
+			default:
+				want += string(body[i])
+			}
+		}
+		if tk.stringVal != want {
+			return fmt.Sprintf("raw string token of %q at %d: value %q, re-escaping of the body %q gives %q", buf, pos, tk.stringVal, body, want)
+		}
+		return ""
+	}
+	if buf[pos] != '"' {
+		return ""
+	}
+	tk := scanStringLiteralToken(buf, pos)
+	// first unescaped quote
+	e := pos + 1
+	for e < len(buf) && buf[e] != '"' {
+		if buf[e] == '\\' {
+			e++
+		}
+		e++
+	}
+	if e < len(buf) && (tk.len != e-pos+1 || tk.stringVal != buf[pos+1:e]) {
+		return fmt.Sprintf("string token of %q at %d: length %d value %q, the literal ends at the first unescaped quote (offset %d) with value %q", buf, pos, tk.len, tk.stringVal, e, buf[pos+1:e])
+	}
+	return ""
 }
